@@ -197,7 +197,9 @@ def run(chk):
     chk.traces += len(cases)
     if cases:
         chk.sample({"case": cases[len(cases) // 2]})
-    chk.uncovered.append("AppWallet encrypted keys: no AES support (cryptography package) on this host - not exercised")
+    from . import x_wallet
+    x_wallet.run(chk, quick, rnd)
+    chk.uncovered.append("AppWallet encrypted keys: no AES support (cryptography package) on this host - not exercised (the wallet's table of secrets is: Wallet.tla)")
     chk.assumptions += ["strings are abstract in the spec; percent-quoting is bound by the independent urllib.parse reader in the harness"]
 
 
